@@ -285,6 +285,62 @@ def rule_r2(chk, F):
         r.floor("%s check lowerings" % f, traps, 4)
 
 
+def rule_r9(chk, F):
+    r = chk.rule("C02.R9", "three-way comparison (Ordering) lowering: both x64 code generators use the same 'less' "
+                           "condition per compare width — signed Less for cmpq/cmpl, unsigned Below for cmpb (UInt8 "
+                           "is the only 8-bit ordered type)")
+    cc = F.crate("dora_cannon_compiler")
+    co = None
+    for p, b in cc.hir.items():
+        if p.endswith("MacroAssembler>::cmp_ordering"):
+            co = b
+    rust = {}
+    if r.anchor("x64 MacroAssembler::cmp_ordering", co):
+        for n in hirq.walk(co["body"]):
+            if n[0] == "match":
+                for (pat, g, arm) in hirq.match_arms(n):
+                    cmps = [cs.name for cs in hirq.calls(arm) if cs.is_method and cs.name.startswith("cmp")]
+                    conds = [last(x[2]) for x in hirq.walk(arm) if x[0] == "def" and "::Condition::" in x[2]]
+                    if cmps and conds:
+                        rust[cmps[0]] = conds[-1]
+    D = F.dora()
+    f = "pkgs/boots/codegen/x64.dora"
+    t = D.get(f)
+    dora = {}
+    if r.anchor(f, t):
+        fn = [x for x in doraq.functions(t, f) if x.name == "emit_compare_ordering" and x.body is not None]
+        if r.anchor("boots x64 emit_compare_ordering", fn):
+            for m in doraq.walk(fn[0].body):
+                if m[0] != "MATCH_ARM":
+                    continue
+                ns = doraq.nodes(m)
+                cs = list(doraq.calls(ns[-1]))
+                cmps = [c.name for c in cs if c.callee.startswith("self.asm.cmp")]
+                jcc = [c for c in cs if c.callee == "self.asm.jcc"]
+                if cmps and jcc:
+                    dora[cmps[0]] = (jcc[0].arg_text(0) or "").split("::")[-1]
+    r.floor("compare widths (cannon)", len(rust), 3)
+    for insn in sorted(set(rust) | set(dora)):
+        if insn not in rust or insn not in dora:
+            r.observe("%s handled by one generator only (cannon=%s boots=%s)" % (insn, rust.get(insn), dora.get(insn)))
+            continue
+        r.instance("cmp_ordering:%s" % insn, sample={"insn": insn, "cannon": rust[insn], "boots": dora[insn]})
+        if rust[insn] != dora[insn]:
+            r.violation("cmp_ordering:%s:cannon-%s-vs-boots-%s" % (insn, rust[insn], dora[insn]),
+                        "after `%s` the baseline compiler branches on Condition::%s, the optimizing compiler on "
+                        "Condition::%s: the two generators order the same operands differently (e.g. 200u8.cmp(100u8) "
+                        "is Greater under one and Less under the other)" % (insn, rust[insn], dora[insn]), f)
+    want = {"cmpb_rr": "Below"}
+    for insn, cond in want.items():
+        # ISA fact (one frozen line): an 8-bit ordered compare in Dora is always unsigned (UInt8); `Less` tests SF!=OF
+        for side, table in (("cannon", rust), ("boots", dora)):
+            if insn in table:
+                r.instance("cmp_ordering:%s:%s-unsigned" % (insn, side))
+                if table[insn] != cond:
+                    r.violation("cmp_ordering:%s:%s-uses-signed-condition" % (insn, side),
+                                "%s compares UInt8 operands with the signed condition %s" % (side, table[insn]), f)
+
+
 def run(chk, F):
     rule_r1(chk, F)
     rule_r2(chk, F)
@@ -293,6 +349,11 @@ def run(chk, F):
     c13.rule_r3(chk, F, rid="C02.R1b")
     from rules import c02_tables
     c02_tables.run_tables(chk, F)
+    rule_r9(chk, F)
+    # C02.R8: arithmetic on program-supplied integers in the natives
+    from rules import c02_natarith
+    cg_rt = CallGraph(F, libs=["dora_runtime"], bins=[])
+    c02_natarith.run(chk, F, cg_rt, rid="C02.R8")
     # C02.R6: the wire protocol between the host and the optimizing compiler (engine of C18.R4)
     from rules import c18_wire
     c18_wire.run_wire(chk, F, rid="C02.R6")
